@@ -349,7 +349,7 @@ impl DynJob {
 }
 
 pub fn debug_assert_shim(b: bool)
-    requires b,
+    requires b,                                                                     // OBL C01,C03,C06,C07 repository_debug_assertion_holds
 {}
 
 /// `panic!(..)`: failing loudly is allowed behaviour, but never inside a critical section: unwinding with a guard alive poisons the
@@ -363,7 +363,13 @@ pub fn panic_shim(Ghost(locks): Ghost<u64>) -> !
 /// `other => panic!("Queue was in unexpected state ..")`: must be unreachable under the protocol
 #[verifier::external_body]
 pub fn unexpected_state_shim() -> !
-    requires false,
+    requires false,                                                                 // OBL C01,C03,C04,C06 unexpected_state_panic_is_unreachable
+{ panic!() }
+
+/// any `panic!` inside `sync_no_panic` (the variant Drop uses while the thread is already unwinding: a second panic aborts the process)
+#[verifier::external_body]
+pub fn never_panics_shim() -> !
+    requires false,                                                                 // OBL C05,C15 syncnopanic_never_panics
 { panic!() }
 
 } // verus!
